@@ -27,8 +27,9 @@ CONSTANTS NWorkers, MaxChunks, SetupIds, FaultTasks, Protocol
           \* Protocol: "fixed" = the code since bdbfbd6/282e2ab (refuse when <src>.bak exists; the renamed source is
           \*           remembered by index), "old" = before (rename over an existing <src>.bak; backup recognised by the
           \*           spelling dst+".bak").  The "old" configurations are vacuity guards: they MUST violate.
-          \*           "fixed2" = "fixed" + proposed patch fixes/C20-2: a task whose backup name belongs to another task of
-          \*           the run is not started at all (decided before any worker runs).
+          \*           "fixed2" = the code since f452f5d (the default): "fixed" + a task whose backup name belongs to another
+          \*           task of the run is not started at all (decided before any worker runs).  "fixed" alone is a guard too:
+          \*           two workers race for the name (CliFs_bakinput_fixed.cfg MUST violate NeverLost).
 
 A    == <<97>>                         \* "a"
 Bf   == <<98>>                         \* "b"
